@@ -19,9 +19,12 @@ def row_term(r):
     assert r["ssent"] == list(range(len(r["ssent"]))) and r["csent"] == list(range(len(r["csent"]))), "rig id numbering"
     # "poststall" (a POST in flight across the pong, longer than the client's upgrade time-out) is not a fault of
     # the websocket: the model's prediction and the oracle are those of an undisturbed upgrade (code 0)
-    code = 0 if r["fault"] == "poststall" else FAULTS.index(r["fault"])
-    return gpair(gnat(code), gpair(gnat(len(r["ssent"])), nl(r["sburst"])),
-                 gpair(gnat(len(r["csent"])), nl(r["cburst"])), nl(r["crecv"]), nl(r["srecv"]),
+    # "slowdiscard" (the old transport's Discard takes 50 ms while 8 goroutines send) likewise
+    code = 0 if r["fault"] in ("poststall", "slowdiscard") else FAULTS.index(r["fault"])
+    sstreams = glist([nl(r["sburst"])])
+    cstreams = glist([nl(r["cburst"])] + [nl(x) for x in (r.get("cstreams") or [])])
+    return gpair(gnat(code), gpair(gnat(len(r["ssent"])), sstreams),
+                 gpair(gnat(len(r["csent"])), cstreams), nl(r["crecv"]), nl(r["srecv"]),
                  gpair(gbool(r["ctr1"] == "websocket"), gbool(r["str1"] == "websocket"),
                        gbool(r["cclosed"]), gbool(r["sclosed"])))
 
@@ -51,6 +54,14 @@ def live_suite(ctx, vh, name, args, min_upgrades):
     if slow:
         ctx.indeterminate += len(slow)
         rows = [r for r in rows if r not in slow]
+    # an undisturbed upgrade that ran into the SERVER's upgrade timer (a probe slower than 3-5 s: machine overloaded)
+    # is the commit-window class produced by the environment, not a verdict
+    overload = [r for r in rows if r["fault"] in ("none", "poststall", "slowdiscard")
+                and any("upgradeTimeout exceeded" in e for e in (r.get("serrs") or []))]
+    if overload:
+        ctx.indeterminate += len(overload)
+        ctx.note("%d undisturbed upgrades hit the server's upgrade time-out (overloaded machine)" % len(overload))
+        rows = [r for r in rows if r not in overload]
     not_engaged = [r for r in rows if r["fault"] != "none" and not r["engaged"]]
     if not_engaged:   # the proxy never reached its step (e.g. dial raced): nothing was tested
         ctx.indeterminate += len(not_engaged)
